@@ -40,7 +40,7 @@ def build_roots(kinds):
     add('r_area', 'pub fn r_area(a: %s, b: %s, c: %s) -> f32 { Vec2::triangle_area(a, b, c) }' % (V2, V2, V2), kind='area', K='Vec2')
     V3 = 'Vec3<f32>'
     add('r_cross', 'pub fn r_cross(a: %s, b: %s) -> %s { a.cross(b) }' % (V3, V3, V3), kind='cross', K='Vec3')
-    add('r_vslerp0', 'pub fn r_vslerp0(a: %s, b: %s, f: f32) -> %s { Vec3::slerp_unclamped(a, b, f) }' % (V3, V3, V3), kind='slerp_ends', K='Vec3', max_paths=16)
+    add('r_vslerp0', 'pub fn r_vslerp0(a: %s, b: %s, f: f32) -> %s { Vec3::slerp_unclamped(a, b, f) }' % (V3, V3, V3), kind='slerp_ends', K='Vec3', max_paths=96)
     V4 = 'Vec4<f32>'
     add('r_homogenized', 'pub fn r_homogenized(a: %s) -> %s { a.homogenized() }' % (V4, V4), kind='homog', K='Vec4')
     add('r_homogenize', 'pub fn r_homogenize(a: %s) -> %s { let mut a = a; a.homogenize(); a }' % (V4, V4), kind='homog', K='Vec4')
